@@ -802,7 +802,7 @@ func main() {
 	c.Set("rule", "seeded sample of Generate edges of the Project.tla state graph (all four layout combinations) reached by their BFS-shortest histories, plus feature-rich schemas from the C17 renderer; each Generate step = one evaluation, executed in several processes (GOMAXPROCS, start directory, clean / previous-output tree varied; verdict = hash equality) and once more with nothing edited (verdict = TLC evaluates the postcondition Idempotent of the intended design on the observed pre/post states, plus byte equality of generated files); a class = (layouts, kind of edits since last run, deviations) or a feature row")
 	c.Set("processes", map[string]any{"generator_processes": h.runs + rep.Stats.Inits, "variants_per_step": len(h.variants), "second_run_probes": h.probes, "second_runs_accepted": accepted, "second_runs_violating": violating, "impl_level_drift": drift, "tour_model_deviations": curDevs, "second_runs_dropping_only_warning_block": h.warnOnly, "generate_steps_with_autobound_model_package": h.abGens, "second_runs_with_autobound_model_package": h.abProbes, "rich_schemas": nRich, "cycle_schema_configurations": nCyc, "processes_per_cycle_configuration": nCycProc + 1})
 	c.Set("gen_function_conflicts", h.genConfl)
-	c.Assume("configurations: all four (resolver layout x exec layout) combinations without autobind, plus two whose autobind list contains the model output package graph/model (with / without a hand-written model in it): there every Generate of a history - and the second run after it - loads the package holding the previous models_gen.go; a second run that fails is C18:second-run-fails, a Generate whose outcome differs between the tree holding previous output and the tree without generated files is C18:outcome-depends-on-run-parameters")
+	c.Assume("configurations: all four (resolver layout x exec layout) combinations without autobind, plus two whose autobind list contains the model output package graph/model (with / without a hand-written model in it), plus one whose autobind list contains the exec package (schema types Config / ResolverRoot, named like top-level identifiers of generated.go): there every Generate of a history - and the second run after it - loads the package holding the previous models_gen.go; a second run that fails is C18:second-run-fails, a Generate whose outcome differs between the tree holding previous output and the tree without generated files is C18:outcome-depends-on-run-parameters")
 	c.Assume("map-order nondeterminism is probabilistic: a missing sort over k >= 3 keys escapes one comparison of two processes with probability <= 1/k!; the number of process starts is reported")
 	c.Assume("idempotence is demanded for every file except that the trailing WARNING block of a resolver file is, by gqlgen's design and by the C19 statement, the content of the last run only: a second run removes it (spec/Project.tla Idempotent)")
 	c.Assume("gen' = F(schema, cfg) is checked by TLC on the model; on the code it is only recorded (gen_function_conflicts), because the statement allows generated files to depend on Go sources")
